@@ -12,7 +12,7 @@ PRE = [
     (r'\b(?:canary|watcher)\s*\*\s*expected\b', 'uintptr_t expected'),
     (r'\bauto old\b', 'uint8_t old'),
     (r'(?<![\w.>])guard\{([^{}]*)\}', r'guard_ctor(\1)'),
-    (r'return watcher\{\*this\};', 'watcher_ctor(vf_ret, this); return;'),
+    (r'return watcher\{\*this\};', 'watcher_ctor(vf_ret, self); return;'),
     (r'\bthis\b(?!\s*->)', 'VF_THIS'),
 ]
 # instrumentation only (no statement is changed): an access through the peer pointer asserts that it is the peer and that the
@@ -66,7 +66,7 @@ SPEC = dict(
         'guard_dtor': dict(file=H, sig=r'~guard\(\) noexcept', within=GUARD, ctx=g_ctx),
     },
     closed_world=[dict(file=H, members=['watcher_', 'canary_', 'state_'], within=CANARY,
-                       allow=[r'guard\(guard&& other\) noexcept\s*: state_\(std::exchange\(other\.state_, nullptr\)\) \{\}',
+                       allow=[r'guard\(guard&& other\) noexcept\s*: state_\([^{};]*\) \{\}',
                               r'explicit guard\(std::atomic<uint8_t>\* state\) noexcept : state_\(state\) \{\}',
                               r'std::atomic<uint8_t>\* state_;',
                               r'std::atomic<canary\*> canary_;',
